@@ -6,6 +6,12 @@ S1(r, x) == [k |-> "S1", r |-> r, x |-> <<x, 1>>, w |-> 0 - 1]
 D1(r, x, w) == [k |-> "D1", r |-> r, x |-> <<x, 1>>, w |-> w]
 S2(r, x) == [k |-> "S2", r |-> r, x |-> <<x, 1>>, w |-> 0 - 1]
 Neg1 == 0 - 1
+P2a(r, x) == [k |-> "P2a", r |-> r, x |-> <<x, 1>>, w |-> 0 - 1]
+P2b(r, x) == [k |-> "P2b", r |-> r, x |-> <<x, 1>>, w |-> 0 - 1]
+\* layouts of one class: perturbed droplets with two and with four amplitudes, and a plain 2-D droplet
+ValsPl == <<P2a(1, 0), P2b(2, 3), P2a(1, 5), S2(1, 1)>>
+ListsPl == {<<>>, <<1>>, <<1, 3>>, <<2>>, <<4>>}
+OpsPl == {"EmNew", "EmAppend", "EmExtend", "EmIndex", "EmAdd", "EmSave", "EmLoad", "EmLink"}
 \* one line per transition for the replay harness
 ObservePrint(op, s2, err) == PrintT(ToJson([n |-> n, f |-> st, o |-> op, t |-> s2, e |-> err, q |-> Queries(s2)]))
 
